@@ -212,6 +212,47 @@ def check(model: Model, run: Run) -> None:
                     run.fail(Finding("F2-offset-length-dimensions", fq, f"{(q or '').split('.')[-1]}({pname}={norm(args[pname])})",
                                      f"{pname} passed to {(q or '').split('.')[-1]} mixes positions and extents: {why}", model.loc(fi.module, n)))
     run.floor("offset/length argument sites", n_sites, 40)
+    # F5: (offset, length) name one span - whoever moves the start must also shorten the extent.  A call / error that is handed
+    # the function's own untouched `length` must be handed its own untouched `offset` too.
+    n_pairs = 0
+    for fq in reach:
+        fi = model.functions[fq]
+        if isinstance(fi.node, ast.Lambda) or not {"offset", "length"} <= set(fi.params()):
+            continue
+        stores = {x.id for x in walk_no_nested(fi.node) if isinstance(x, ast.Name) and isinstance(x.ctx, ast.Store)}
+        if "length" in stores:
+            continue
+        # locals that are only ever an alias of the untouched offset parameter
+        def is_own_offset(e: ast.expr) -> bool:
+            if isinstance(e, ast.Name) and e.id == "offset" and "offset" not in stores:
+                return True
+            if isinstance(e, ast.Name) and e.id in stores:
+                binds = [a.value for a in walk_no_nested(fi.node) if isinstance(a, (ast.Assign, ast.AnnAssign)) and a.value is not None and
+                         any(isinstance(t, ast.Name) and t.id == e.id for t in (a.targets if isinstance(a, ast.Assign) else [a.target]))]
+                augs = [a for a in walk_no_nested(fi.node) if isinstance(a, ast.AugAssign) and isinstance(a.target, ast.Name) and a.target.id == e.id]
+                return bool(binds) and not augs and all(is_own_offset(b) for b in binds)
+            return False
+        for n in walk_no_nested(fi.node):
+            if not isinstance(n, ast.Call):
+                continue
+            q = model.resolve_name(fi.module, norm(n.func)) if isinstance(n.func, (ast.Name, ast.Attribute)) else None
+            if q == FSE:
+                names = ["msg", "filter", "offset", "length"]
+            elif q in model.functions and model.functions[q].module == FILTER and {"offset", "length"} <= set(model.functions[q].params()):
+                names = model.functions[q].params()
+            else:
+                continue
+            args = dict(zip(names, n.args))
+            args.update({k.arg: k.value for k in n.keywords if k.arg})
+            if "offset" in args and "length" in args and isinstance(args["length"], ast.Name) and args["length"].id == "length":
+                n_pairs += 1
+                ok = is_own_offset(args["offset"])
+                run.ob("F5-span-pairing", ok, {"function": fq.split(".")[-1], "offset": norm(args["offset"]), "length": "length"})
+                if not ok:
+                    run.fail(Finding("F5-span-pairing", fq, f"{(q or '').split('.')[-1]}(offset={norm(args['offset'])}, length=length)",
+                                     f"{fi.name} reports/forwards the span (offset={norm(args['offset'])}, length=length): the start was moved but the extent is still the whole "
+                                     "span's, so offset + length can point past the end of the input", model.loc(fi.module, n)))
+    run.floor("whole-span (offset, length) pairs", n_pairs, 5)
     # ---- (3a) attribute/rule strings are validated before they reach a constructor ----
     guard_rule(model, mr, run, reach)
     # ---- (3b) the pattern's language (Engine E) ---------------------------------------
